@@ -924,6 +924,85 @@ def check_C15(ctx):
                         'init/fini events recorded in mutex order (free recording), not serialized']
 
 
+# ----------------------------------------------------------------------------- C17: bulk fork-join helpers
+def check_C17(ctx):
+    lib = build_lib()
+    cfg = 'BulkForkJoin_quick.cfg' if ctx.quick else 'BulkForkJoin_thorough.cfg'
+    ctx.log('MC BulkForkJoin %s' % cfg)
+    r = tlc_design('BulkForkJoin', os.path.join(SPEC, cfg), coverage=False, heap='8g', timeout=6000)
+    ctx.cov['states'] += r['distinct']; ctx.cov['transitions'] += r['states']
+    ctx.cov['design_runs'].append({'module': 'BulkForkJoin', 'cfg': cfg, 'distinct_states': r['distinct'], 'states_generated': r['states'],
+                                   'wall_s': r['wall_s'], 'result': 'ok' if r['ok'] else r['violation']})
+    if not r['ok']:
+        f = os.path.join(ctx.work, 'tlc_bfj.out'); open(f, 'w').write(r['out'])
+        ctx.violation('design model BulkForkJoin/%s: %s' % (cfg, r['violation']), [f])
+        return
+    cases = []
+    for l in r['out'].split('\n'):
+        if l.startswith('<<"CASE"'):
+            m = re.match(r'<<"CASE", "(.*)">>$', l.strip())
+            cases.append(json.loads(m.group(1).encode().decode('unicode_escape')))
+    ctx.log('   %d distinct states, %d instances with their expected outcome' % (r['distinct'], len(cases)))
+    inp = os.path.join(ctx.work, 'bulk_in.txt')
+    with open(inp, 'w') as f:
+        for c in cases:
+            f.write('%s %d %d %d %d %d %d %d %d\n' % (c['kind'], c['first'], c['last'], c['step'], c['grain'], c['as'], c['rs'], c['is'], c['at']))
+    inc = '-I%s/include -I%s/src -I%s/vrt -I%s/harness %s' % (REPO, REPO, VERIF, VERIF, ('-I%s/cfg' % lib) if os.path.isdir(lib + '/cfg') else '')
+    bins = {}
+    for name, cc, src in (('bulk', 'gcc', 'bulk.c'), ('mtbb', 'g++ -std=c++11', 'mtbb.cc')):
+        out = os.path.join(BUILD, name)
+        rc, o = sh('%s -O1 -g -w -DMYTH_VERIF -D_GNU_SOURCE %s -o %s %s/harness/%s %s/libmyth-v.a -lpthread -ldl -lrt' % (cc, inc, out, VERIF, src, lib), timeout=600)
+        if rc != 0:
+            raise Infra('%s build failed: %s' % (name, o[-2000:]))
+        bins[name] = out
+    nreplayed = 0
+
+    def compare(name, nw, expect):
+        nonlocal nreplayed
+        rc, out = sh([bins[name], inp], timeout=3000, env={'BULK_NW': str(nw)})
+        bad = []
+        for l in out.strip().split('\n'):
+            p_ = l.split()
+            if len(p_) < 2 or not p_[0].isdigit() or p_[1] == 'SKIP':
+                continue
+            c = expect[int(p_[0])]
+            nreplayed += 1
+            if p_[1] != 'OK':
+                bad.append((c, ' '.join(p_[1:])[:200]))
+            elif name == 'mtbb':
+                got = sorted(int(x.split(':')[0]) for x in p_[2:] if int(x.split(':')[1]) == 1)
+                dup = [x for x in p_[2:] if int(x.split(':')[1]) != 1]
+                if got != sorted(c['idx']) or dup:
+                    bad.append((c, 'body applied to %s (expected exactly once to each of %s)' % (p_[2:], sorted(c['idx']))))
+            else:
+                got = [int(x) for x in p_[2:]]
+                want = [1 if i in c['idx'] else 0 for i in range(len(got))]
+                if got != want:
+                    bad.append((c, 'function applied %s times to items 0.. (expected %s)' % (got, want)))
+        return bad
+    for nw in ((1, 3) if ctx.quick else (1, 2, 3, 8)):
+        for name in ('bulk', 'mtbb'):
+            bad = compare(name, nw, cases)
+            ctx.log('S->C %s on %d workers: %d disagreements' % (name, nw, len(bad)))
+            for c, what in bad[:3]:
+                f_ = os.path.join(ctx.work, 'bulk_%s_%d.json' % (name, nw)); json.dump({'instance': c, 'outcome': what, 'workers': nw}, open(f_, 'w'))
+                ctx.violation('%s instance %s on %d workers: %s' % (c['kind'], {k: c[k] for k in ('first', 'last', 'step', 'grain', 'as', 'rs', 'is', 'at')}, nw, what), [f_])
+    # binding self-test: a wrong expectation must be reported as a disagreement
+    wrong = [dict(c) for c in cases]
+    k = next(i for i, c in enumerate(wrong) if c['kind'] == 'pfor' and len(c['idx']) >= 2)
+    wrong[k]['idx'] = wrong[k]['idx'][1:]
+    k2 = next(i for i, c in enumerate(wrong) if c['kind'] == 'cjm' and len(c['idx']) >= 2)
+    wrong[k2]['idx'] = wrong[k2]['idx'][:-1]
+    if not compare('mtbb', 2, wrong) or not compare('bulk', 2, wrong):
+        raise Infra('bind self-test: a corrupted expectation was not reported')
+    ctx.cov['bind_selftest'].append({'corruption': 'expected index set shortened', 'rejected': True})
+    ctx.cov['oracle_cases_replayed_into_impl'] = nreplayed
+    ctx.cov['traces_validated_against_impl'] = nreplayed
+    ctx.cov['samples'] += [cases[7], cases[len(cases) // 2]]
+    ctx.assumptions += ['instances bounded: n <= 9 (17 thorough) items, small first/last/step/grain sets; outcomes compared per instance, not per schedule',
+                        'the runs use the real scheduler on 1..8 workers without forced schedules']
+
+
 def check_C12(ctx):
     std_check(ctx, [('MC_Core', 'MC_Core_small.cfg')],
               lambda rng: gen_core_prog(rng, maxb=10, flagset=(0, F_STACK, F_STACK, F_PF | F_STACK, F_ATTR, F_DETACH | F_STACK, F_PF)),
@@ -956,7 +1035,7 @@ def check_C14(ctx):
 
 
 CHECKS = {'C01': check_C01, 'C02': check_C02, 'C04': check_C04, 'C09': check_C09, 'C10': check_C10, 'C11': check_C11, 'C05': check_C05, 'C06': check_C06, 'C07': check_C07,
-          'C08': check_C08, 'C12': check_C12, 'C13': check_C13, 'C14': check_C14, 'C15': check_C15, 'C20': check_C20}
+          'C08': check_C08, 'C12': check_C12, 'C13': check_C13, 'C14': check_C14, 'C15': check_C15, 'C17': check_C17, 'C20': check_C20}
 
 
 def main():
